@@ -31,6 +31,16 @@ CHECKS = {
         'the XML sub-language without DTD, PI, comments.',
    tech='Coq proof by induction over strings and rose trees (closed under the global context) + correspondence',
    ref='5/C02'),
+ 'C14': dict(
+   text='Proof (Coq): invariant by induction over every history of prefix requests (get_nsprefix for unknown namespaces, unqualified '
+        'names, formula/namespaced-token prefixes via __save_prefix) starting from the regenerated nsdict: the table written on root '
+        'elements always has NCName prefixes, is a bijection, never binds "xmlns" or the empty namespace name; bindings are only added; '
+        'hence (with the C02 round trip) the parse of a serialisation is the same under any two reachable tables. Known prefixes inside '
+        'values get declared (proved); unknown ones do not (proved; known finding). Tied by correspondence of the two real dicts after '
+        'random op histories and by a fresh-subprocess vs after-history infoset comparison.',
+   note='Axioms: none. Decimal printing through Coq\'s DecimalN (N.to_uint), injectivity from its of_to lemma.',
+   tech='Coq invariant proof by induction over operation histories + regenerated nsdict + correspondence',
+   ref='5/C14'),
  'C17': dict(
    text='Proof (Coq): for every string and every pre-existing child list, extractText(addTextToElement(e,s)) = before ++ s; '
         'emitted text nodes hold no TAB/LF/double blank and are never adjacent; elements allowing text,s,tab,line-break accept '
